@@ -82,6 +82,27 @@ def check_solutions(xs, ys, ts, res, ctx):
                     require(any(xs[i] - slack <= z <= xs[i + 1] + slack for z in sol.tolist()), "pl:crossing-missed",
                             lambda: f"{ctx}: target {t!r}: no solution reported in [{xs[i]!r}, {xs[i + 1]!r}] "
                                     f"where y goes {ys[i]!r} -> {ys[i + 1]!r}; got {sol.tolist()}")
+            # ... and every *interior* maximal run of samples lying exactly on the target level
+            # (a crossing through a sample point, a touch at a peak/valley, a flat run) is
+            # represented by a solution inside the run.  Runs that include the first or last
+            # sample are not required (the closest-point fallback covers them only when they are
+            # the sole solution).
+            j = 1
+            while j < n - 1:
+                if ys[j] == t and ys[j - 1] != t:
+                    k = j
+                    while k + 1 < n and ys[k + 1] == t:
+                        k += 1
+                    if k < n - 1:
+                        slack = 8 * float(np.spacing(max(abs(xs[j]), abs(xs[k]), 1e-300)))
+                        require(any(xs[j] - slack <= z <= xs[k] + slack for z in sol.tolist()),
+                                "pl:touch-missed",
+                                lambda: f"{ctx}: target {t!r}: samples {j}..{k} lie on the target level "
+                                        f"(x in [{xs[j]!r}, {xs[k]!r}]) but no solution is reported there; "
+                                        f"got {sol.tolist()}")
+                    j = k + 1
+                else:
+                    j += 1
             d = np.diff(sol)
             xr = max(xs[-1] - xs[0], 1e-300)
             require(bool(np.all(d >= 0)) and bool(np.all((d > 0) | (np.abs(d) <= 1e-12 * xr))),
@@ -146,7 +167,7 @@ def _metric(name):
 
 @st.composite
 def _tam_cases(draw):
-    s = draw(gen.score_sets(min_pos=1, min_neg=1, max_size=8, modes=("grid", "dyadic", "distinct"),
+    s = draw(gen.score_sets(min_pos=1, min_neg=1, max_size=8, modes=("grid", "dyadic", "distinct", "int"),
                             max_easy=10))
     sc, ec = draw(gen.CONFIG)
     pk = draw(st.sampled_from(["none", "none", "int", "array"]))
@@ -172,7 +193,8 @@ def check_tam(case):
     from score_analysis.utils import invert_pl_function
 
     s = case["s"]
-    o = Scores(np.asarray(s["pos"], dtype=float), np.asarray(s["neg"], dtype=float),
+    dt = int if s["mode"] == "int" else float
+    o = Scores(np.asarray(s["pos"], dtype=dt), np.asarray(s["neg"], dtype=dt),
                nb_easy_pos=s["ep"], nb_easy_neg=s["en"], score_class=case["sc"], equal_class=case["ec"])
     metric = _metric(case["metric"])
     allv = sorted(map(float, s["pos"] + s["neg"]))
@@ -209,7 +231,7 @@ def check_tam(case):
                         f"on the evaluation points gives {np.asarray(e).ravel().tolist()}")
     # and the inversion itself returns true solutions of the interpolant through (P, Y)
     stats = check_solutions(P.tolist(), Y.tolist(), list(case["t"]), got_l, ctx)
-    labels = [f"points:{pk}", f"metric:{case['metric']}"] + [k for k, v in stats.items() if v]
+    labels = [f"points:{pk}", f"metric:{case['metric']}", f"mode:{s['mode']}"] + [k for k, v in stats.items() if v]
     return dict(nontrivial=any(stats.values()), labels=labels)
 
 
